@@ -30,7 +30,7 @@ them as `∀` statements. A changed table entry or dispatch arm makes the corres
 `Proof.Tables` theorem fail; `#eval tableBad …` / `radixBad …` then names the row.
 
 Feature sets: `radix` (= `std,radix`), `compact` (= `std,compact,radix`), `default` (= `std`).
-Known deviations kept explicit: `split_radix(12)` (excluded + witness), Bellerophon mantissas are
+Known deviations kept explicit: Bellerophon mantissas are
 truncated rather than nearest (witness), `SMALLEST_POWER_OF_TEN` of `f32` is not tight.
 -/
 namespace LexVerif.Props.TablesParse
@@ -147,21 +147,17 @@ theorem max_digits_ok_default : ∀ r ∈ SmallSet.Default.radices,
 /-! ## large powers, split_radix -/
 
 /-- `split_radix(r) = (odd, shift)`: `odd·2^shift = r` (`(0, log2 r)` for powers of two) and the large
-power selected for `odd` denotes `odd^step` — for every radix **except 12**. -/
-theorem split_radix_ok : ∀ r, 2 ≤ r → r ≤ 36 → r ≠ 12 → splitRadixOk LargeSet.Radix r = true := by
-  intro r h2 h36 h12
-  have := of_radixAll split_radix_radix r h2 h36
-  simpa [splitRadixExcluded, h12] using this
+power selected for `odd` denotes `odd^step`, for all 35 radices. (Needed the exclusion `r ≠ 12` until
+/repo commit 64f91ce fixed `split_radix(12) = (6, 1)`, which selected `35^60` for base 6.) -/
+theorem split_radix_ok : ∀ r, 2 ≤ r → r ≤ 36 → splitRadixOk LargeSet.Radix r = true :=
+  of_radixAll split_radix_radix
 
-/-- the excluded radix really fails: `split_radix(12) = (6,1)` and `get_large_int_power(6)` is `35^60`. -/
-theorem split_radix_12_witness :
-    splitRadixOk LargeSet.Radix 12 = false ∧ LargeSet.Radix.splitRadix 12 = (6, 1) ∧
+/-- why the odd part matters: a base without its own arm selects the radix-35 power. -/
+theorem large_power_fallthrough_witness :
     LargeSet.Radix.largeStep 6 = 60 ∧
     limbsVal 64 (LargeSet.Radix.largeLimbs 6).toList = 35 ^ 60 ∧
-    limbsVal 64 (LargeSet.Radix.largeLimbs 6).toList ≠ 6 ^ 60 := split_radix_12_fails
+    limbsVal 64 (LargeSet.Radix.largeLimbs 6).toList ≠ 6 ^ 60 := large_power_fallthrough
 
-theorem split_radix_product : ∀ r, 2 ≤ r → r ≤ 36 → splitRadixProductOk LargeSet.Radix r = true :=
-  of_radixAll split_radix_product_radix
 theorem split_radix_ok_compact : ∀ r, 2 ≤ r → r ≤ 36 → splitRadixOk LargeSet.CompactRadix r = true :=
   of_radixAll split_radix_compact
 theorem split_radix_ok_default : ∀ r ∈ [2, 5, 10], splitRadixOk LargeSet.Default r = true :=
